@@ -3,3 +3,6 @@
 
 /* C20.audit: an unguarded size product handed to the allocator */
 void* verif_ctl_unguarded_product(size_t n, size_t k) { return _cbor_malloc(n * k); }
+
+/* *.signed-shift: a promoted byte shifted into the sign bit of int */
+unsigned verif_ctl_signed_shift(const unsigned char* s) { return (unsigned)(s[0] << 24) | s[1]; }
